@@ -52,39 +52,52 @@ def gen_script(rng, opts=None):
         k = rng.choices(["cancel", "update", "replace"], opts.get("w_req", [0.4, 0.2, 0.4]))[0]
         arg = {"cancel": rng.choice([None, None, 100]), "update": rng.choice(["PERSIST", "LAPSE"]), "replace": rng.choice([200, 300, 400])}[k]
         return ["req", k, rng.randrange(8), arg, rng.random() < opts.get("p_prefer", 0.8)]
-    def rowd():
-        if rng.random() < opts.get("p_foreign", 0.12):
-            return {"foreign": [rng.randrange(ns) if rng.random() < 0.75 else "unknown-strategy", str(900 + rng.randrange(6))], "status": rng.choice(["EXECUTABLE", "EXECUTION_COMPLETE"]),
-                    "matched_frac": rng.choice([0, 1]), "sel": rng.choice([101, 202])}
-        return {"pick": rng.randrange(8), "status": rng.choices(["EXECUTABLE", "EXECUTION_COMPLETE", "EXPIRED"], [0.6, 0.3, 0.1])[0], "matched_frac": rng.choices([0, 1, 2], [0.5, 0.3, 0.2])[0],
-                "bet": "own", "prefer_live": rng.random() < 0.7}
-    for _ in range(rng.randrange(opts.get("min_len", 4), opts.get("max_len", 22))):
+    for _ in range(rng.randrange(opts.get("min_len", 4), opts.get("max_len", 24))):
         r = rng.random()
-        if r < 0.22:
+        if r < 0.20:
             steps.append(place())
-        elif r < 0.30:
+        elif r < 0.27:
             steps.append(["txn", [place() for _ in range(rng.randrange(2, 4))]])
-        elif r < 0.45:
+        elif r < 0.41:
             steps.append(req())
-        elif r < 0.52:
+        elif r < 0.47:
             steps.append(["txn", [req() for _ in range(rng.randrange(2, 4))]])
-        elif r < 0.80:
+        elif r < 0.66:
             steps.append(["deliver", rng.randrange(4), gen_outcome(rng, opts=opts)])
+        elif r < 0.72:
+            steps.append(["call", rng.randrange(4), gen_outcome(rng, opts=opts)])
+        elif r < 0.77:
+            steps.append(["respond", rng.randrange(3)])
+        elif r < 0.83:
+            steps.append(["xfill", rng.randrange(6), rng.choice([1, 2])] if rng.random() < 0.7 else ["xlapse", rng.randrange(6)])
+        elif r < 0.85:
+            steps.append(["xforeign", rng.randrange(ns) if rng.random() < 0.75 else "unknown-strategy", 900 + rng.randrange(6), rng.choice([101, 202])])
+        elif r < 0.87 and opts.get("limits"):
+            steps.append(["advance", rng.choice([1, 2, 5, 10])])
         elif r < 0.995 or not opts.get("restart"):
-            steps.append(["stream", [rowd() for _ in range(rng.randrange(1, 4))]])
+            steps.append(["stream", rng.choices(["full", "changed", "full" if opts.get("no_stale") else "stale", [rng.randrange(8) for _ in range(rng.randrange(1, 4))]], [0.4, 0.3, 0.1, 0.2])[0]])
         else:
             steps.append(["restart"]); steps.append(["book", "OPEN"])
     if opts.get("drain", True):
-        # deliver whatever is still in flight, then one full snapshot of everything
-        for _ in range(6):
-            steps.append(["deliver", 0, {"reports": [{"status": "SUCCESS"}], "perm": "id"} if rng.random() < 0.5 else gen_outcome(rng, opts=opts)])
-    return {"strategies": ns, "steps": steps}
+        # quiescence: answer every call, send everything still packaged, answer, then the exchange's latest full snapshot (twice)
+        steps.append(["drain", [gen_outcome(rng, opts=opts) for _ in range(3)]])
+        steps.append(["stream", "full"]); steps.append(["stream", "full"])
+    case = {"strategies": ns, "steps": steps}
+    if opts.get("limits"):
+        case["limits"] = {"max_trades": rng.choice([1, 2, 3, 10 ** 6]), "max_live": rng.choice([1, 1, 2, 10 ** 6]), "multi": rng.random() < 0.5,
+                          "place_reset": rng.choice([0.0, 0.0, 2.0, 5.0]), "reset": rng.choice([0.0, 0.0, 2.0, 5.0])}
+    return case
 
 
 def events_of(step, ob):
     """model events for one implementation step, from the concrete facts it reports"""
     res = ob["res"]
-    if step[0] in ("book",) or res is None:
+    if step[0] == "drain":
+        evs = []
+        for r in res["drained"]:
+            evs += events_of(["deliver"], {"res": r})
+        return evs or ["LNop"]
+    if step[0] in ("book", "xfill", "xlapse", "xforeign", "advance") or res is None:
         return ["LNop"]
     if step[0] == "restart":
         return ["LRestart"]
@@ -94,6 +107,8 @@ def events_of(step, ob):
         for f, r in zip(res["facts"], results):
             if r is False and f["req"] in ("cancel", "update", "replace"):
                 evs.append("(LRefused %s)" % z(num(f["order"])))
+            if r is False and f["req"] == "place":
+                evs.append("(LPlaceRefused %s %s %s %s %s %s)" % (z(num(f["order"])), z(int(f["trade"][1:])), z(f["strategy"]), z(f["sel"]), z(f["size"]), z(f["price"])))
             if r is not True:
                 continue
             if f["req"] == "place":
@@ -101,13 +116,15 @@ def events_of(step, ob):
             elif f["req"] in ("cancel", "update", "replace"):
                 evs.append("(LReq %s %s %s)" % (z(num(f["order"])), z({"cancel": 0, "update": 1, "replace": 2}[f["req"]]), z(f["arg"] if f["req"] == "replace" else 0)))
         return evs or ["LNop"]
-    if step[0] == "deliver":
+    if step[0] in ("deliver", "call", "respond"):
+        if "kind" not in res:
+            return ["LNop"]              # the call is made; the response is still on its way
         names = zl(num(n) for n in res["orders"])
         if not res["responded"]:
-            if step[2].get("unknown"):
-                return ["(LUnknownError %s)" % names]
             if not res["calls"]:
                 return ["LNop"]          # empty package: nothing sent
+            if res.get("unknown"):
+                return ["(LUnknownError %s)" % names]
             return ["(LExhausted %s %s)" % (names, cb(res["kind"] == "place"))]
         k = res["kind"]
         if k == "place":
@@ -213,11 +230,11 @@ def distribution(cases, impl):
     for case, r in zip(cases, impl):
         for step, ob in zip(case["steps"], r):
             res = ob["res"]
-            if step[0] == "deliver" and isinstance(res, dict):
+            if step[0] in ("deliver", "call", "respond") and isinstance(res, dict) and "kind" in res:
                 c["deliver_" + res["kind"]] += 1
                 c["deliver_n%d" % min(len(res["orders"]), 3)] += 1
                 if not res["responded"]:
-                    c["unknown_error" if step[2].get("unknown") else "exhausted"] += 1
+                    c["unknown_error" if res.get("unknown") else "exhausted"] += 1
                 elif res["calls"] > 1:
                     c["retried_then_answered"] += 1
                 for x in res.get("sent", []):
@@ -240,3 +257,89 @@ def distribution(cases, impl):
         c["trades_complete"] += len({o["trade"] for o in last["orders"] if o["trade_status"] == "Complete"})
         c["reopened"] += sum(1 for o in last["orders"] if "Execution complete" in o["log"][:-1])
     return dict(c)
+
+
+# ---------------------------------------------------------------------------------------------------------
+def run_live_family(ck, fname, cases, checkers, keyprefix, exhaustive=False, extra_dist=None):
+    """checkers: list of functions (case, run) -> [(key, description)]"""
+    impl, codes = run_cases(ck.pid.lower() + fname, cases)
+    mism = [i for i, c in enumerate(codes) if c != 0]
+    pf = []
+    for i, (case, r) in enumerate(zip(cases, impl)):
+        for fn in checkers:
+            for key, desc in fn(case, r):
+                pf.append((i, key, desc))
+        for si, ob in enumerate(r):
+            res = ob["res"]
+            rs = res["drained"] if isinstance(res, dict) and "drained" in res else [res]
+            for x in rs:
+                if isinstance(x, dict) and x.get("exc") and not x.get("unknown"):
+                    pf.append((i, keyprefix + "-handler-raised", "step %d: a handler raised %s" % (si, x["exc"])))
+    dist = distribution(cases, impl)
+    dist.update(extra_dist or {})
+    nontriv = len({json.dumps(c["steps"], sort_keys=True) for c, r in zip(cases, impl) if r and r[-1]["orders"]})
+    ck.family(fname, len(cases), nontriv, mism, sorted({i for i, *_ in pf}), dist=dist, exhaustive=exhaustive,
+              samples=[{"family": fname, "script": cases[0]["steps"][:6], "last_observation": {"orders": impl[0][-1]["orders"][:2], "exchange": impl[0][-1]["exchange"][:2]}}])
+    seen = set()
+    for i, key, desc in pf:
+        if key in seen:
+            continue
+        seen.add(key)
+        ck.fail(key, desc, {"case": cases[i], "how": "harness/impl/livelib.py job 'exec' (real Flumine + BetfairExecution + process_current_orders against the exchange double): "
+                                                        "echo '{\"job\":\"exec\",\"cases\":[<case>]}' | PYTHONPATH=/repo /venv/bin/python harness/impl/livelib.py"})
+    for i in mism[:3]:
+        ck.broken[-1].setdefault("cases", []).append({"index": i, "code": codes[i], "case": cases[i]})
+    return impl, codes
+
+
+def max_calls():
+    import re
+    txt = open(os.path.join(COQ, "Gen", "LiveC.v")).read()
+    return 1 + int(re.search(r"MAX_RETRIES := \(?(-?\d+)", txt).group(1))
+
+
+CLEAN = {"reports": [{"status": "SUCCESS"}], "perm": "id"}
+
+
+def directed_faults(thorough, rng):
+    """every assignment of {SUCCESS, FAILURE, TIMEOUT} to the instructions of packages of 1..3 orders of each kind, API errors on the
+    first 0..4 attempts, cancel reports permuted / missing, an order of the package completed at the exchange (and streamed) between
+    request and response"""
+    import itertools
+    cases = []
+    ST = ["SUCCESS", "FAILURE", "TIMEOUT"]
+    def place_n(n, asyn=False):
+        return ["txn", [["place", 0, 101 if k % 2 == 0 else 202, "BACK", 200, 500, None, asyn] for k in range(n)]]
+    for kind in ("place", "cancel", "update", "replace"):
+        for n in (1, 2, 3):
+            assigns = list(itertools.product(ST, repeat=n))
+            for asg in assigns:
+                variants = []
+                errs = [0, 1, 3, 4] if thorough else [rng.choice([0, 0, 1, 2, 3, 4])]
+                perms = (["id", "rev", "drop_first", "drop_all"] if thorough else [rng.choice(["id", "rev", "drop_first", "drop_all"])]) if kind == "cancel" else ["id"]
+                mids = ([None] + list(range(n)) if thorough else [rng.choice([None] + list(range(n)))]) if kind != "place" else [None]
+                for e in errs:
+                    for pm in perms:
+                        for mid in mids:
+                            variants.append((e, pm, mid))
+                for e, pm, mid in variants:
+                    steps = [["book", "OPEN"]]
+                    if kind == "place":
+                        steps.append(place_n(n, asyn=rng.random() < 0.2))
+                        descs = [{"status": s, "with_bet": rng.random() < 0.5, "matched_frac": rng.choice([0, 0, 1, 2]), "order_status": rng.choice(["EXECUTABLE", "EXECUTABLE", "EXPIRED"])} for s in asg]
+                        steps.append(["deliver", 0, {"errors": e, "reports": descs, "perm": "id"}])
+                    else:
+                        steps.append(place_n(n)); steps.append(["deliver", 0, CLEAN])
+                        arg = {"cancel": rng.choice([None, 100, 250]), "update": "PERSIST", "replace": 300}[kind]
+                        steps.append(["txn", [["req", kind, k, arg, False] for k in range(n)]])
+                        if mid is not None:
+                            steps.append(["xfill", mid, 2]); steps.append(["stream", "full"])
+                        if kind == "replace":
+                            descs = [{"cancel": s, "place": rng.choice(ST), "with_bet": rng.random() < 0.5} for s in asg]
+                        else:
+                            descs = [{"status": s, "with_bet": rng.random() < 0.5} for s in asg]
+                        steps.append(["deliver", 0, {"errors": e, "reports": descs, "perm": pm}])
+                    steps.append(["stream", "full"])
+                    steps.append(["drain", [CLEAN]]); steps.append(["stream", "full"]); steps.append(["stream", "full"])
+                    cases.append({"strategies": 1, "steps": steps})
+    return cases
